@@ -16,7 +16,9 @@ func (it *Interp) clockRead() IntV {
 	name := "now"
 	if it.clockLogical {
 		it.clockN++
-		return mkInt(uint64(1_000_000_000+1000*int64(it.clockN)), 64, true)
+		v := mkInt(uint64(1_000_000_000+1000*int64(it.clockN)), 64, true)
+		it.clockReads = append(it.clockReads, v)
+		return v
 	}
 	if it.Cfg.Concrete != nil {
 		v := it.nondet(name, 64, true)
@@ -30,6 +32,7 @@ func (it *Interp) clockRead() IntV {
 	}
 	it.addPC(smt.Cmp("bvslt", t, smt.Const(1<<62, 64)))
 	it.clock = t
+	it.clockReads = append(it.clockReads, IntV{T: t, W: 64, S: true})
 	return IntV{T: t, W: 64, S: true}
 }
 
